@@ -4,6 +4,7 @@
 #  builds, demo fails with the change, existing tests of the touched packages pass with
 #  the change, demo passes without the change. Leaves the worktree at HEAD.
 wt=$1; n=$2; out=$3
+export PATH=/root/go/pkg/mod/golang.org/toolchain@v0.0.1-go1.25.0.linux-amd64/bin:$PATH GOTOOLCHAIN=local GOFLAGS=-mod=mod GOPROXY=off GOSUMDB=off
 cd "$wt" || exit 2
 m="MUTATION/$n"
 git checkout -q -- . ; rm -f zz_mutdemo_*_test.go internal/*/zz_mutdemo_*_test.go
@@ -26,11 +27,12 @@ go test -count=1 -run "^${demotest}\$" "$pkgdir" >> "$out.log" 2>&1; demo_with=$
 rm -f "$pkgdir/zz_mutdemo_${n}_test.go"
 pkgs="."
 for f in $files; do d=$(dirname $f); [ "$d" != "." ] && pkgs="$pkgs ./$d"; done
-go test -count=1 -timeout 25m $pkgs >> "$out.log" 2>&1; suite=$?
+go test -count=1 -vet=off -timeout 25m $pkgs >> "$out.log" 2>&1; suite=$?
 if [ $suite -ne 0 ]; then
   # load-sensitive timing tests: one retry of the failing tests only
-  failed=$(grep -E "^--- FAIL: " "$out.log" | awk '{print $3}' | sort -u | tr '\n' '|' | sed 's/|$//')
-  if [ -n "$failed" ]; then go test -count=1 -run "^($failed)\$" $pkgs >> "$out.log" 2>&1; suite=$?; res "retried: $failed -> $suite"; fi
+  failed=$(grep -E "^--- FAIL: " "$out.log" | awk '{print $3}' | grep -v "^TestMutDemo" | sort -u | tr '\n' '|' | sed 's/|$//')
+  # (the machine runs many suites at once: a timing test gets up to three more attempts)
+  if [ -n "$failed" ]; then for try in 1 2 3; do go test -count=1 -vet=off -run "^($failed)\$" $pkgs >> "$out.log" 2>&1; suite=$?; res "retried: $failed -> $suite"; [ $suite -eq 0 ] && break; sleep 20; done; fi
 fi
 git checkout -q -- .
 cp "$m/demo_test.go" "$pkgdir/zz_mutdemo_${n}_test.go"
